@@ -188,16 +188,29 @@ def run_property(prop, tier, seed, procs):
     open_funcs = set(r['name'][0] for r in results if r['verdict'] != 'unsat' and meta[r['name']]['kind'] != 'canary')
     violations = []
     native_tried = 0
-    budget_open = 300 if tier == 'thorough' else 25
+    budget_open = 600 if tier == 'thorough' else 120
     budget_ok = 20 if tier == 'thorough' else 2
     bounded_targets = [q for q, c_ in contracts.REG.items() if prop in c_.props and c_.bounded_flag and c_.gen is not None]
-    search_jobs = [(q, seed, budget_open if q in open_funcs else budget_ok) for q in targets + bounded_targets if contracts.REG[q].gen is not None]
+    # the bound of the native search is a number of inputs per function (deterministic in seed and iteration), split into chunks over the cores;
+    # functions with an open obligation get five times as many.  The time budget is a safety net only.
+    search_jobs = []
+    for q in targets + bounded_targets:
+        c_ = contracts.REG[q]
+        if c_.gen is None:
+            continue
+        n_it = c_.native_iters[tier] * (5 if q in open_funcs else 1)
+        chunk = max(50, (n_it + 7) // 8)
+        for lo in range(0, n_it, chunk):
+            search_jobs.append((q, seed, budget_open, lo, min(n_it, lo + chunk)))
     with ctx.Pool(min(procs, max(1, len(search_jobs)))) as pool:
         found = pool.map(_search_worker, search_jobs, chunksize=1)
     native_found = {}
-    for (q, _, _), (f, tried) in zip(search_jobs, found):
+    native_truncated = []
+    for (q, _, _, lo, hi), (f, tried, trunc) in zip(search_jobs, found):
         native_tried += tried
-        if f is not None:
+        if trunc:
+            native_truncated.append('%s[%d:%d]' % (q, lo, hi))
+        if f is not None and (q not in native_found or f['iteration'] < native_found[q]['iteration']):
             native_found[q] = f
 
     still = {}
@@ -353,7 +366,8 @@ def run_property(prop, tier, seed, procs):
         'known_findings_hit': [k.get('what') for k in known_hits],
         'native_only_clauses': [{'function': q, 'clause': nm, 'status': 'bounded stand-in: evaluated on generated inputs only, not proved'} for q in targets for nm, _ in getattr(contracts.REG[q], 'native_ensures_l', [])],
         'bounded_stand_ins': [{'function': q, 'status': 'contract evaluated on generated inputs only (assumed at call sites), not proved'} for q in bounded_targets],
-        'native_differential_search': {'inputs_tried': native_tried, 'violations_found': len(native_found),
+        'native_differential_search': {'inputs_tried': native_tried, 'violations_found': len(native_found), 'ranges_cut_short_by_the_time_limit': native_truncated,
+                                       'bound': 'per function: iterations 0..n-1 of its generator, n = %s' % {q: contracts.REG[q].native_iters[tier] for q in targets + bounded_targets if contracts.REG[q].gen is not None},
                                        'note': 'bounded stand-in / cross-check only: never counted as proved'},
         'samples': samples,
         'explanation': contracts.PROP_NOTES.get(prop, '') if hasattr(contracts, 'PROP_NOTES') else '',
@@ -382,12 +396,13 @@ ASSUMPTIONS = ['A-CLOSED: no monkey-patching / subclassing outside /repo non-tes
 
 
 def _search_worker(job):
-    q, seed, budget = job
+    q, seed, budget, lo, hi = job
     try:
-        f = native.search(q, seed, budget)
-        return f, native.search.last_stats.get('tried', f.get('tried', 0) if f else 0)
+        f = native.search(q, seed, budget, hi, lo)
+        st = native.search.last_stats
+        return f, st.get('tried', 0), bool(st.get('truncated'))
     except Exception:
-        return {'function': q, 'seed': seed, 'iteration': -1, 'args': '', 'clause': 'native-harness-error', 'observed': traceback.format_exc()}, 0
+        return {'function': q, 'seed': seed, 'iteration': -1, 'args': '', 'clause': 'native-harness-error', 'observed': traceback.format_exc()}, 0, False
 
 
 def match_known(known, func, clause_or_obl, found):
